@@ -202,7 +202,17 @@ def F23():
     return len(find_ips(b"1.2.3.4 <t>")) != len(find_ips(b" 1.2.3.4 <t>"))
 
 
-ALL = ["F1", "F2", "F3", "F4", "F5", "F6", "F7", "F8", "F9", "F12", "F13", "F14", "F15", "F16", "F18", "F19", "F10", "F20", "F21", "F22", "F23"]
+def F24():
+    from multidecoder.decoders.powershell import find_powershell_bytes
+    data = b",".join(b"%d" % (i % 256) for i in range(600)) + b" -bxor $k"
+    try:
+        with_timeout(lambda: find_powershell_bytes(data), 10)
+    except TO:
+        return True
+    return False
+
+
+ALL = ["F1", "F2", "F3", "F4", "F5", "F6", "F7", "F8", "F9", "F12", "F13", "F14", "F15", "F16", "F18", "F19", "F10", "F20", "F21", "F22", "F23", "F24"]
 if __name__ == "__main__":
     for name in (sys.argv[1:] or ALL):
         try:
